@@ -20,4 +20,30 @@ CHECKS = {
             dict(test="TestC03Random", unit="random", kind="rapid", checks=(2400, 48000), shards=(8, 16)),
         ],
     ),
+    "C14": dict(
+        level="exploration",
+        technique="property-based testing (rapid) + exhaustive prefix/block enumeration against a reference on net/netip + math/big",
+        rule="specifications drawn from the documented grammar (single, a-b, v4/v6 CIDR with every prefix length, every contiguous v4 netmask; aligned and "
+             "host-bits-set bases) and from the named reject classes; each accepted spec is probed at both borders +-2, a random interior and random exterior "
+             "addresses, in 16-byte and (for IPv4) 4-byte form, against the documented set computed on 128-bit integers; 1/8 of the blocks of <= 4096 addresses are "
+             "swept address by address. non-trivial = probe within 1 of a border, or base with host bits set, or a prefix length outside the 10 the test-suite covers, "
+             "or an invalid spec; distinct by (spec text, probe)",
+        assumptions=["net/netip and math/big are trusted as the reference arithmetic", "spec spellings outside the documented grammar and outside the named reject classes are not generated (don't-care)"],
+        units=[
+            dict(test="TestC14Random", unit="random", kind="rapid", checks=(60000, 1500000), shards=(8, 16)),
+            dict(test="TestC14Prefixes", unit="prefixes", kind="enum", shards=(4, 4)),
+        ],
+    ),
+    "C02": dict(
+        level="exploration",
+        rule="sessions that open generated files (boundary sizes 0,1,2047..2049,64 KiB+-1,k*64 KiB+-1, random <= 4 MiB, sparse files around 4 GiB and 5 GiB) and issue "
+             "ordinary and critical reads with (offset, limit) aimed at EOF, 2048 and 64 KiB multiples, limit 0 and limits up to 2^31-1, interleaved with other requests; "
+             "every reply is compared with the harness's own pread of the file (announced count == min(limit, max(0,size-offset)), bytes equal, critical reads: exact bytes or "
+             "correct prefix then end of connection). non-trivial = a read that crosses/touches EOF, or has an edge within 2 bytes of a 2048/65536 multiple, or offset >= 4 GiB, "
+             "or a non-plain object; distinct by (object kind, command, size, offset, limit)",
+        assumptions=[INPROC, "bytes transferred per read are capped at 8 MiB (limits up to 2^31-1 are exercised where the file is smaller)"],
+        units=[
+            dict(test="TestC02Plain", unit="plain", kind="rapid", checks=(1600, 40000), shards=(8, 16)),
+        ],
+    ),
 }
